@@ -348,15 +348,18 @@ class SecopClient(ProxyClient):
         except Exception:
             pass
 
-    def connect(self, try_period=0):
+    def connect(self, try_period=0, reconnecting=False):
         """establish connection
 
         if a <try_period> is given, repeat trying for the given time (sec)
+        <reconnecting> is set when called from the reconnect thread: in this
+        case a shutdown requested in the meantime must not be revoked
         """
         with self._lock:
             if self.io:
                 return
-            self._shutdown.clear()
+            if not reconnecting:
+                self._shutdown.clear()
             self.txq = queue.Queue(30)
             self.pending = queue.Queue(30)
             self.active_requests.clear()
@@ -535,7 +538,9 @@ class SecopClient(ProxyClient):
     def _reconnect(self, connected_callback=None):
         while not self._shutdown.is_set():
             try:
-                self.connect()
+                self.connect(reconnecting=True)
+                if self._shutdown.is_set():
+                    break
                 if connected_callback:
                     connected_callback()
                 break
